@@ -178,6 +178,46 @@ def run(prop, tier, seed):
             continue
         if not unchanged(before, arrays):
             viol.append((f"{name}: applying the operation modified an array supplied by the user", {"case": name}))
+    # every interpreter command with numpy leaves (literal in the tuple / returned by a context entry):
+    # the same Operation applied to identical fresh states must give identical results, equal to what an
+    # operation built from copies of the arrays gives, and the user's arrays stay as they were
+    from photon_weave.state.custom_state import CustomState
+    A0 = np.array([[0.3, 0.2 - 0.4j], [0.2 + 0.4j, -0.5]], dtype=complex)
+    B0 = np.array([[0.1, 0.7j], [-0.7j, 0.4]], dtype=complex)
+    inners = {"add": lambda a, b: ("add", a, b), "add3": lambda a, b: ("add", a, b, a), "sub": lambda a, b: ("sub", a, b),
+              "s_mult": lambda a, b: ("s_mult", a, b), "m_mult": lambda a, b: ("m_mult", a, b), "div": lambda a, b: ("div", a, 2.0),
+              "nested": lambda a, b: ("add", ("m_mult", a, b), ("sub", b, a))}
+    for hname, mkinner in inners.items():
+        for mode in ("literal", "context"):
+            n += 1
+            kinds.add(f"pure:{hname}:{mode}")
+            A, B = A0.copy(), B0.copy()
+
+            def build(a, b):
+                if mode == "literal":
+                    return Operation(CSO.Expresion, expr=("expm", ("s_mult", 1j, 0.3, mkinner(a, b))), context={})
+                return Operation(CSO.Expresion, expr=("expm", ("s_mult", 1j, 0.3, mkinner("a", "b"))), context={"a": lambda d: a, "b": lambda d: b})
+
+            try:
+                op = build(A, B)
+                res = []
+                for k in range(3):
+                    c = CustomState(2)
+                    c.apply_operation(op)
+                    res.append(np.asarray(c.state if not isinstance(c.state, int) else np.eye(2)[:, [c.state]], dtype=complex).reshape(-1))
+                cf = CustomState(2)
+                cf.apply_operation(build(A0.copy(), B0.copy()))
+                fresh = np.asarray(cf.state if not isinstance(cf.state, int) else np.eye(2)[:, [cf.state]], dtype=complex).reshape(-1)
+            except Exception as ex:
+                viol.append((f"expression ({hname}, {mode} numpy leaves): raised {type(ex).__name__}: {str(ex)[:120]}", {"case": hname, "mode": mode}))
+                continue
+            desc = {"case": hname, "mode": mode}
+            if not (np.array_equal(A, A0) and np.array_equal(B, B0)):
+                viol.append((f"expression ({hname}, {mode} numpy leaves): applying the operation modified an array supplied by the user", desc))
+            elif any(np.abs(r - res[0]).max() > 1e-9 for r in res[1:]):
+                viol.append((f"expression ({hname}, {mode} numpy leaves): the same Operation gave different results on identical fresh states", desc))
+            elif np.abs(res[0] - fresh).max() > 1e-9:
+                viol.append((f"expression ({hname}, {mode} numpy leaves): a reused Operation does not act like a freshly constructed one", desc))
     # operand-type crosstalk between two Expression operations
     n += 1
     kinds.add("expression-types")
